@@ -239,6 +239,10 @@ def confirm(c, outs):
         if not same and 'ok' in r: return True, f'{prof}: incommensurable but accepted: {r["ok"]["value"]} {r["ok"]["unit_text"]}'
     return False, 'real build agrees with the oracle'
 
+def validate(tier, seed, report):
+    from props import unitlib
+    return unitlib.validate_kernels(seed, 80 if tier == 'quick' else 400, ops=('add', 'sub'))
+
 def known_match(k, c):
     return True
 
